@@ -1,6 +1,7 @@
 package j2t
 
 import (
+	"github.com/cloudwego/dynamicgo/thrift/base"
 	"context"
 	"math"
 	"strconv"
@@ -606,4 +607,47 @@ func VerifC02_SkippedValues() {
 	}
 	vrt.Reach("converted")
 	vrt.Assert(vrt.BytesEq(out, 0, len(out), want, 0, len(want)), "C02.skipped-value.rest-unchanged")
+}
+
+func init() { vrt.Register("VerifC02_ThriftBase", VerifC02_ThriftBase) }
+
+// VerifC02_ThriftBase: EnableThriftBase with a *base.Base handed over in the context: for every free capacity
+// of the caller's buffer (CAP sweeps the neighbourhood of the encoded size of the Base) the document converts
+// and the Base is written once, as field 255, before the body fields.
+func VerifC02_ThriftBase() {
+	bs := thrift.VerifStruct("Base", thrift.Options{}, thrift.VField{ID: 1, Name: "LogID", Type: thrift.VerifBasic(thrift.STRING), Req: 0})
+	st := thrift.VerifNewStruct("Req", 256)
+	thrift.VerifAddField(st, thrift.VField{ID: 1, Name: "msg", Type: thrift.VerifBasic(thrift.STRING), Req: 2}, thrift.Options{})
+	fb := thrift.VerifAddField(st, thrift.VField{ID: 255, Name: "Base", Type: bs, Req: 0}, thrift.Options{})
+	thrift.VerifSetRequestBase(st, fb)
+	thrift.VerifBuild(st)
+	b := &base.Base{LogID: string([]byte{vrt.U8() & 0x7f, 'L'}), Caller: "c"}
+	n := b.BLength()
+	enc := make([]byte, n)
+	b.FastWrite(enc)
+	doc := []byte(`{"msg":"m"}`)
+	if vrt.Param("EMPTY") != 0 {
+		doc = []byte(`{}`)
+	}
+	free := n + vrt.Param("DELTA") - 3 // free capacity of the caller's buffer: n-3 .. n+5
+	if free < 0 {
+		free = 0
+	}
+	buf := make([]byte, 2, 2+free)
+	buf[0], buf[1] = 0xAA, 0xBB // caller's own prefix, kept by DoInto
+	ctx := context.WithValue(context.Background(), conv.CtxKeyThriftReqBase, b)
+	cv := NewBinaryConv(conv.Options{EnableThriftBase: true})
+	err := cv.DoInto(ctx, st, doc, &buf)
+	vrt.Assert(err == nil, "C02.thriftbase.converts")
+	if err != nil {
+		return
+	}
+	vrt.Reach("converted")
+	want := []byte{0xAA, 0xBB}
+	want = append(vrt.PutField(want, vrt.TSTRUCT, 255), enc...)
+	if vrt.Param("EMPTY") == 0 {
+		want = vrt.PutString(vrt.PutField(want, vrt.TSTRING, 1), []byte("m"))
+	}
+	want = append(want, 0)
+	vrt.Assert(vrt.BytesEq(buf, 0, len(buf), want, 0, len(want)), "C02.thriftbase.base-then-body")
 }
